@@ -8,8 +8,12 @@ clang; plus a recovering gcc build that lists every UBSan site instead of stoppi
   * valid wasmgen modules of every profile (incl. `names`: bytes >= 0x80, quotes, long names) x option combinations,
   * hand-built minimal witnesses of the suspected defects (DESIGN §6 #5-#8 and the 9-byte i64 LEB),
   * EVERY truncation point 0 < k < len of small modules,
+  * modules that make the translator reserve many array slots at once / grow its arrays far (harness/reserve_many.py:
+    name sections naming 9..300 functions read under -g, deep operand stacks, deep nesting, large br_table, hundreds
+    of types/imports/globals/exports/segments) x option sets,
 and the verdict of `Model.Reader` (accept / reject / which undefined operation) is compared with what the real
-reader did.  A sanitizer report, a signal or an abort is real-side undefined behaviour: each distinct site is a
+reader did.  The growable-array primitive itself (array.c/array.h, regenerated into Gen/Array and proved in
+Props/C10Array) is additionally run in-process under ASan against `Model.Array` on reservation sequences.  A sanitizer report, a signal or an abort is real-side undefined behaviour: each distinct site is a
 violation with a stable key and the smallest input that reaches it.
 """
 import collections
@@ -23,12 +27,14 @@ import subprocess
 
 import vlib
 import reader_dump as rd
+import array_harness as ah
+import reserve_many
 from common import prove, leanchecker
 from vlib import log
 
 PROP = "C10"
-MODULES = ["W2c2Verif.Props.C10"]
-GENS = [("Reader", "gen_reader")]
+MODULES = ["W2c2Verif.Props.C10", "W2c2Verif.Props.C10Array"]
+GENS = [("Reader", "gen_reader"), ("Array", "gen_array")]
 READERDRIVER = os.path.join(vlib.LEAN, ".lake", "build", "bin", "readerdriver")
 
 SAN = ["-O1", "-g", "-fsanitize=address,undefined", "-fno-omit-frame-pointer"]
@@ -49,6 +55,8 @@ KNOWN_SITES = [
     (r"stack-buffer-overflow", r"stringBuilderAppendCharHex|stringbuilder\.c:17\d", "hexescape-stack-overflow-stringBuilderAppendCharHex"),
     (r"stack-buffer-overflow", r"wasmCWriteFileEscaped", "hexescape-stack-overflow-wasmCWriteFileEscaped"),
     (r"ubsan", r"leb128\.h:172", "leb-i64-sign-extend-shift63"),
+    (r"heap-buffer-overflow", r"wasmReadNameSection|wasmFunctionNamesRemoveDuplicates", "name-table-under-allocated"),
+    (r"heap-buffer-overflow", r"wasmTypeStack|wasmLabel|Append", "array-slot-out-of-bounds"),
     (r"SEGV|null|ubsan", r"wasmFunctionNameEntryCompareNames|wasmFunctionNamesRemoveDuplicates|reader\.c:3[36]\d", "name-section-partial-strcmp-null"),
     (r"SEGV|null|ubsan", r"wasmCGetDebugLine|c\.c:25[5-8]\d", "debuglines-null-g-multithread"),
 ]
@@ -168,6 +176,63 @@ OPTION_SETS = [[], ["-p"], ["-m"], ["-g"], ["-f", "1"], ["-f", "3", "-p"], ["-t"
                ["-g", "-t", "1", "-f", "2"], ["-t", "1"], ["-t", "3", "-g"]]
 
 
+def array_lines(rng, tier):
+    """reservation sequences for `arr <itemSize> <length>...`: appends, single large reservations on an empty array,
+    jumps far beyond 1.5x, shrinking requests, random mixes; element sizes of the real ARRAY_TYPE instances."""
+    lines = []
+    sizes = (1, 4, 8, 16, 24, 56)
+    for sz in sizes:
+        lines.append("arr %d %s" % (sz, " ".join(str(i) for i in range(1, 70))))           # Append by Append
+        for first in (1, 2, 8, 9, 12, 13, 100, 4097):
+            lines.append("arr %d %d %d %d" % (sz, first, first + 1, 3 * first + 5))           # reserve, append, jump
+    for _ in range(60 if tier == "quick" else 1500):
+        sz = rng.choice(sizes)
+        n = rng.randint(1, 12)
+        cur = 0
+        seq = []
+        for _ in range(n):
+            kind = rng.random()
+            if kind < 0.4:
+                cur = cur + 1
+            elif kind < 0.7:
+                cur = cur + rng.randint(2, 40)
+            elif kind < 0.9:
+                cur = cur * rng.randint(2, 5) + rng.randint(0, 9)
+            else:
+                cur = max(0, cur - rng.randint(0, 20))
+            cur = min(cur, 200000)
+            seq.append(cur)
+        lines.append("arr %d %s" % (sz, " ".join(map(str, seq))))
+    return lines
+
+
+def array_differential(chk, d, repo, broken):
+    try:
+        exe = ah.build(repo, d)
+    except RuntimeError as e:
+        broken.append({"kind": "harness-build", "msg": str(e)[-800:]})
+        return
+    lines = array_lines(chk.rng, chk.tier)
+    real = ah.run(exe, lines)
+    model = vlib.DriverProc(READERDRIVER).batch(lines, timeout=600)
+    nmis = 0
+    for ln, r, m in zip(lines, real, model):
+        chk.count_case(("arr", ln), True, {"line": ln, "real": r[:120], "model": m[:120]} if nmis == 0 and ln.endswith(" 9 10 32") else None)
+        if "OVERFLOW" in r or ":0" in r:
+            # the real primitive returned true but the block is smaller than the capacity it reports / lost elements
+            chk.violation("array-ensure-capacity-under-allocates",
+                          "arrayEnsureCapacity (array.c) returns true but the block it leaves is smaller than the requested length "
+                          "(ASan: heap-buffer-overflow when the reserved slots are written) or does not preserve the elements: `" + ln + "` -> `" + r + "`",
+                          {"mode": "array", "line": ln, "real": r, "model": m,
+                           "replay_cmd": "python3 tools/check.py C10 --replay <this file>"}, True)
+        elif r != m:
+            nmis += 1
+            if nmis <= 3:
+                broken.append({"kind": "correspondence", "msg": f"array: `{ln}` real `{r}` model `{m}`"})
+    chk.coverage["array_sequences"] = len(lines)
+    chk.coverage["array_mismatches"] = nmis
+
+
 def model_verdicts(cases):
     """cases: [(data, debug)] -> ['ok' | 'err N' | 'ub reason']"""
     lines = [rd.line_for(b, dbg, True) for b, dbg in cases]
@@ -194,7 +259,9 @@ def run(tier):
     if not ok:
         broken.append({"kind": "driver-build", "msg": out[-2000:]})
     chk.coverage["rule"] = ("a case is (file image, option list, instrumented build); valid images: wasmgen modules of all 8 profiles x option "
-                            "sets from a fixed matrix (-p -m -g -f N -t N -c -d MODE) + 6 hand-built witnesses; truncated images: every "
+                            "sets from a fixed matrix (-p -m -g -f N -t N -c -d MODE) + 6 hand-built witnesses + reserve-many modules (name sections naming "
+                            "9..300 functions dense/sparse/unordered/duplicate under -g, deep operand stacks, deep nesting + br_table, hundreds of "
+                            "entities); array primitive: (element size, reservation sequence) vs Model.Array under ASan; truncated images: every "
                             "prefix 0<k<len of the modules <= 2 kB (quick) ; observed: exit status / signal / every ASan+UBSan report; "
                             "compared with Model.Reader's verdict (accept, reject, which undefined operation). Non-trivial = distinct case.")
     findings = {}      # key -> dict(smallest reproducer)
@@ -216,12 +283,18 @@ def run(tier):
                     for name, (cc, flags) in BUILDS.items()}
             for name, f in futs.items():
                 exes[name] = f.result()
+        # ------------------------------------------------------------------ the array primitive, in-process
+        if ok:
+            array_differential(chk, d, repo, broken)
         # ------------------------------------------------------------------ case lists
         from wasmgen import PROFILES, encode, module_for
         valid = []        # (label, data, opts, asan_opts, build)
         for name, data, opts, ao in witnesses():
             for b in BUILDS:
                 valid.append(("witness:" + name, data, opts, ao, b))
+        for k, (label, data, optsets) in enumerate(reserve_many.modules(chk.rng, tier)):
+            for j, opts in enumerate(optsets):
+                valid.append(("reserve:" + label, data, opts, ASAN_LATER, ("gcc-strict", "clang-strict", "gcc-recover")[(k + j) % 3]))
         nmod = 4 if tier == "quick" else 30
         small = []
         for profile in PROFILES:
@@ -335,6 +408,7 @@ def run(tier):
         "hexescape-stack-overflow-wasmCWriteFileEscaped": "wasmCWriteFileEscaped: \"%c%02X\" on a signed char / isalnum on a negative char",
         "leb-i64-sign-extend-shift63": "leb128ReadI64: -((I64)1 << 63) for a 9-byte encoding with the sign bit set (e.g. i64.const -2^60): signed overflow (UBSan aborts a -fno-sanitize-recover build on a valid module)",
         "name-section-partial-strcmp-null": "-g with a name section that does not name every function: strcmp on NULL entries in wasmFunctionNamesRemoveDuplicates (SIGSEGV)",
+        "name-table-under-allocated": "-g on a module whose name section covers more functions than the name table has slots: wasmNamesEnsureCapacity(functionCount) returned true with fewer slots (array.c growth does not honour the requested length), names[functionIndex] is stored past the block",
         "debuglines-null-g-multithread": "-g with more than one worker: task.debugLines == NULL is dereferenced in wasmCGetDebugLine",
     }
     os.makedirs(vlib.REPLAYS, exist_ok=True)
@@ -362,6 +436,12 @@ def run(tier):
 
 def replay(path):
     r = json.load(open(path))
+    if r.get("mode") == "array":
+        with vlib.scratch("c10r-") as d:
+            repo = vlib.copy_repo(os.path.join(d, "repo"))
+            out = ah.run(ah.build(repo, d), [r["line"]])[0]
+        print(f"real arrayEnsureCapacity on `{r['line']}`: `{out}`; model: `{r.get('model')}`")
+        return 1 if ("OVERFLOW" in out or ":0" in out) else 0
     if "hex" not in r:
         print("nothing to replay (no failing input was found):", json.dumps(r.get("broken", ""))[:600])
         return 1
